@@ -41,7 +41,8 @@ Ordered(kind, x, y) == IF kind = "opt" THEN x >= y ELSE IF kind = "pes" THEN x <
 FLShape(kind, doff, fl, o, rewound) ==
   /\ ~o.fltrunc
   /\ (kind = "none") => (fl = <<>>)
-  /\ \A i \in 1..Len(fl) : /\ fl[i][1] % 8 = 0 /\ doff <= fl[i][1]
+  \* (a segment is a non-empty range: size 0 is the "being removed" mark, never a state a call may leave behind)
+  /\ \A i \in 1..Len(fl) : /\ fl[i][1] % 8 = 0 /\ doff <= fl[i][1] /\ fl[i][2] > 0
                            /\ Seg(fl[i]).hi <= o.cap
                            /\ (rewound \/ Seg(fl[i]).hi <= o.alloc)
   /\ \A i, j \in 1..Len(fl) : i < j => (Disjoint(Seg(fl[i]), Seg(fl[j])) /\ Ordered(kind, fl[i][2], fl[j][2]))
